@@ -7,8 +7,14 @@ otherwise.
 from fractions import Fraction as F
 
 
-class Injected(Exception):
-    """The fault raised by the injector."""
+class Injected(ValueError, IndexError, KeyError, ZeroDivisionError, TypeError, AttributeError, RuntimeError,
+               AssertionError, OverflowError, FloatingPointError):
+    """The fault raised by the injector.  It is an instance of every common built-in exception class at once, so a
+    library `except ValueError:` / `except (KeyError, IndexError):` ... around a callback swallows it (and is thereby
+    exposed) exactly as it would swallow a user exception of that class."""
+
+    def __str__(self):
+        return self.args[0] if self.args else 'injected fault'
 
 
 class Injector:
@@ -103,11 +109,20 @@ class Model:
             out = {k: self.conv(val) for k, val in out.items()}
         return out
 
+    def _complete(self, x):
+        missing = [n for n in self.names if n not in x]
+        if missing:
+            from .choice import CURRENT_PID, Violation
+            raise Violation(f"{CURRENT_PID[0]}/model-input-incomplete",
+                            f"the model was evaluated on {dict(x)}, which lacks the feature(s) {missing} (every model "
+                            f"input must carry all features: the instance's own values or background values)", {})
+
     def __call__(self, x):
         if isinstance(x, dict):
             if self.inj is not None:
                 self.inj.tick('model')
             self.n_calls += 1
+            self._complete(x)
             out = self.f(x)
             self.log.add('model', dict(x), dict(out))
             return out
